@@ -29,7 +29,8 @@ RULE = ("datasets with several shards and metadata groups (flat and nested lists
 ASSUMPTIONS = ["enumeration order = own shards of a list in list order, then child lists depth-first (C03)",
                "combined options are compared across interfaces only (the statement defines each option singly)"]
 
-METAS = [{"g": "a"}, {"g": "b"}, {"g": "c", "deep": {"k": [1, 2]}}]
+METAS = [{"g": "a"}, {"g": "b"}, {"g": "c", "deep": {"k": [1, 2], "z": 1}},
+         {"g": "c", "deep": {"z": 1, "k": [1, 2]}}]      # the last two are EQUAL values (nested key order differs)
 
 
 def gen_dataset(rng: random.Random) -> dict:
@@ -192,8 +193,10 @@ def _run_case(case: dict, rng, hist: dict, fmt: str, comp: str, verbose: bool) -
                 obs["restricting_options"] += 1
 
         # --- shards=k
+        import numpy as np
         for k in sorted({1, 2, max(1, total - 1), total, total + 1, total + 5}):
-            check("shards", {"shards": k}, select(shards, k=k), k < total)
+            # the count as a Python int and as a NumPy integer (e.g. the result of np.ceil(...).astype(int))
+            check("shards", {"shards": k if k % 2 else np.int64(k)}, select(shards, k=k), k < total)
         # --- predicates
         for name in rng.sample(sorted(PREDICATES), 5) + ["none"]:
             fn = PREDICATES[name]
@@ -205,7 +208,8 @@ def _run_case(case: dict, rng, hist: dict, fmt: str, comp: str, verbose: bool) -
         biggest = max(groups.values())
         for limit in sorted({1, 2, max(1, biggest - 1), biggest, biggest + 1}):
             chosen = select(shards, limit=limit)
-            check("type_limit", {"custom_metadata_type_limit": limit}, chosen, len(chosen) < total)
+            check("type_limit", {"custom_metadata_type_limit": limit if limit % 2 == 0 else np.int32(limit)}, chosen,
+                  len(chosen) < total)
         # --- combinations: interfaces against each other
         for _ in range(3):
             options = {}
